@@ -649,6 +649,38 @@ theorem parse_repr_rel (hb : B58RoundTrip hash256) (hh : ∀ b, 4 ≤ (hash256 b
   simp only [Option.bind_some, hcontains, if_true, pyInt_natStr, hbodies, hrecsP, hq, if_false, hcons]
 
 
+/-- every xpub the constructor stores carries the plain BIP32 version bytes of its network (SLIP-132 prefixes are
+    coalesced to xpub / tpub before the text is built, ordered and checksummed) -/
+theorem construct_plain_versions (hb : B58RoundTrip hash256) (hsec : ∀ b Q, EC.parsePoint b = some Q → SecOK Q)
+    (m : Int) (krs : List KeyRecord) (cs : Str) (srt : Bool) (d : Desc)
+    (hc : construct hash256 m krs cs srt = some d) :
+    ∀ kr ∈ d.keyRecords, ∃ pk, HDPub.parse hash256 kr.xpubParent = some pk ∧ pk.network = d.network ∧
+      dictGet Gen.hdXpub pk.network = some pk.pubVersion := by
+  unfold construct at hc
+  simp only [Option.bind_eq_some_iff] at hc
+  obtain ⟨d0, hd0, hc⟩ := hc
+  have hdd : d0 = d := by
+    split at hc
+    · cases hc
+    · exact Option.some.inj hc
+  subst hdd
+  obtain ⟨-, -, hkne, ⟨saved, hcr, hkr⟩, -, -⟩ := constructCore_spec hash256 m krs srt d0 hd0
+  obtain ⟨-, -, i3, -⟩ := checkRecords_spec hash256 hb hsec krs none saved _ hcr
+  obtain ⟨n, hn, hsaved⟩ := i3 hkne
+  cases hn
+  intro kr hk
+  have hmem : kr ∈ saved := by
+    rw [hkr] at hk
+    split at hk
+    · exact (List.mergeSort_perm saved _).subset hk
+    · exact hk
+  obtain ⟨norm, h1, h2, h3, -⟩ := (hsaved kr hmem).key
+  refine ⟨norm, h1, h2, ?_⟩
+  simp only [normPub, mkPub, versionOr, Option.bind_eq_bind, Option.pure_def, Option.bind_eq_some_iff] at h3
+  obtain ⟨pv, hpv, h3⟩ := h3
+  have e := Option.some.inj h3
+  rw [hpv, ← e]
+
 /-- whatever text `parse` accepts, the descriptor it returns carries the checksum of its own text -/
 theorem parse_checksum (r : Str) (d : Desc) (h : parse hash256 hmac h160 r = some d) :
     calcCoreChecksum d.text = some d.checksum := by
